@@ -35,6 +35,8 @@ def r_group(g, top=True):
         return g[1] + r_args(g[2])
     if k == "ref":
         return f"${g[1]}.{g[2]}()"
+    if k == "objev":           # `fa.Finished()` / `FooAction.Started()`
+        return f"{g[1]}{r_args(g[3]) if g[3] else ''}.{g[2]}()"
     if k == "flow":
         s = g[1] + "".join(" " + a for a in g[2])
         if len(g) > 3 and g[3]:
@@ -65,6 +67,8 @@ def r_stmts(stmts, ind, out):
         elif k in ("start_flow", "await_flow"):
             kw = "start" if k == "start_flow" else "await"
             out.append(pad + f"{kw} {s[1]}" + "".join(" " + a for a in s[2]) + (f" as ${s[3]}" if s[3] else ""))
+        elif k == "assign_await":
+            out.append(pad + f"${s[1]} = await {s[2]}" + "".join(" " + a for a in s[3]))
         elif k == "await_group":
             out.append(pad + "await " + r_group(s[1]))
         elif k == "start_group":
@@ -115,7 +119,7 @@ def render(prog):
     for f in prog["flows"]:
         for d in f.get("deco", []):
             out.append(d)
-        out.append("flow " + f["name"] + "".join(" $" + p for p in f["params"]))
+        out.append("flow " + f["name"] + "".join(" $" + p + ("=" + f["defaults"][p] if p in f.get("defaults", {}) else "") for p in f["params"]))
         r_stmts(f["body"], 1, out)
         out.append("")
     return "\n".join(out) + "\n"
@@ -157,22 +161,38 @@ class G:
         self.nvar += 1
         return f"{p}{self.nvar}"
 
-    def ev_args(self):
+    def val(self, fi=None):
+        r = self.rng
+        if fi is not None and r.random() < 0.25:
+            v = self.vars_pool(fi)
+            if v:
+                self.feats.add("var-arg")
+                return "$" + v
+        return r.choice(VALS)
+
+    def ev_args(self, fi=None):
         r = self.rng
         if r.random() < 0.6:
             return []
-        return [["x", r.choice(VALS)]] + ([["y", r.choice(VALS)]] if r.random() < 0.2 else [])
+        return [["x", self.val(fi)]] + ([["y", self.val(fi)]] if r.random() < 0.2 else [])
 
-    def ev(self):
-        return ["ev", self.rng.choice(EVENTS), self.ev_args()]
+    def ev(self, fi=None):
+        return ["ev", self.rng.choice(EVENTS), self.ev_args(fi)]
 
-    def match_group(self, depth=2):
+    def match_group(self, depth=2, fi=None):
         r = self.rng
         if depth <= 0 or r.random() < 0.55:
-            return self.ev()
+            if fi is not None and r.random() < 0.08:
+                j = self.callee(fi)
+                if j is not None and r.random() < 0.6:
+                    self.feats.add("match-flow-event")
+                    return ["objev", self.flows_meta[j]["name"], r.choice(["Finished", "Finished", "Started", "Failed"]), []]
+                self.feats.add("match-action-event")
+                return ["objev", r.choice(ACTIONS), r.choice(["Finished", "Started"]), [["", ""]][:0]]
+            return self.ev(fi)
         op = r.choice(["and", "or"])
         self.feats.add("group-" + op)
-        return [op] + [self.match_group(depth - 1) for _ in range(r.choice([2, 2, 3]))]
+        return [op] + [self.match_group(depth - 1, fi) for _ in range(r.choice([2, 2, 3]))]
 
     def callee(self, fi):
         """a flow with a larger index (DAG => no unbounded recursion)"""
@@ -210,10 +230,10 @@ class G:
         x = r.random()
         if x < 0.22:
             self.feats.add("match")
-            return ["match", self.match_group(2 if depth > 0 else 0)]
+            return ["match", self.match_group(2 if depth > 0 else 0, fi)]
         if x < 0.34:
             self.feats.add("send")
-            return ["send", r.choice(OUTS), ([["x", r.choice(VALS)]] if r.random() < 0.5 else [])]
+            return ["send", r.choice(OUTS), ([["x", self.val(fi)]] if r.random() < 0.5 else [])]
         if x < 0.42:
             self.feats.add("start-action")
             ref = self.var("a") if r.random() < 0.6 else None
@@ -297,7 +317,23 @@ class G:
             kind = r.choice(["FinishFlow", "FinishFlow", "StopFlow"])
             self.feats.add("send-" + kind)
             return ["send", kind, [["flow_id", '"' + self.flows_meta[j]["name"] + '"']]]
-        if x < 0.975:
+        if x < 0.962:
+            j = self.callee(fi)
+            if j is not None:
+                name, args = self.flow_call(j)
+                v = self.var("v")
+                self.declared.setdefault(fi, []).append(v)
+                self.feats.add("assign-await")
+                return ["assign_await", v, name, args]
+        if x < 0.966:
+            self.feats.add("priority")
+            return ["priority", r.choice(["0.5", "0.25", "1.0", "0.75"])]
+        if x < 0.970:
+            self.feats.add("global")
+            g_ = r.choice(["g1", "g2"])
+            self.declared.setdefault(fi, []).append(g_)
+            return ["global", g_]
+        if x < 0.98:
             self.feats.add("assign")
             v = self.var("v")
             self.declared.setdefault(fi, []).append(v)
@@ -324,7 +360,11 @@ class G:
             params = []
             if r.random() < 0.4:
                 params = ["p"] if r.random() < 0.7 else ["p", "q"]
-            self.flows_meta.append({"name": names[j - 1], "params": params})
+            defaults = {}
+            if params and r.random() < 0.3:
+                defaults[params[-1]] = r.choice(VALS)
+                self.feats.add("param-default")
+            self.flows_meta.append({"name": names[j - 1], "params": params, "defaults": defaults})
         flows = []
         self.declared = {}
         for fi, meta in enumerate(self.flows_meta):
@@ -340,7 +380,7 @@ class G:
             if fi > 0 and r.random() < 0.08:
                 deco.append("@active")
                 self.feats.add("active-deco")
-            flows.append({"name": meta["name"], "params": meta["params"], "deco": deco, "body": body})
+            flows.append({"name": meta["name"], "params": meta["params"], "defaults": meta.get("defaults", {}), "deco": deco, "body": body})
         return {"flows": flows}
 
 
